@@ -871,6 +871,11 @@ func (s *Server) getPrompt(ctx context.Context, req *GetPromptRequest) (*GetProm
 		if err := handleMultiRoundTripResult(req.Session, s.opts.Logger, res); err != nil {
 			return nil, err
 		}
+		if res.Messages == nil && res.resultType != resultTypeInputRequired {
+			res2 := *res
+			res2.Messages = []*PromptMessage{} // avoid "null"
+			res = &res2
+		}
 	}
 	return res, err
 }
